@@ -1501,12 +1501,14 @@ def make_admissible(vals, cls, nfull):
 
 
 class Gen:
-    def __init__(self, rng, world, numba_share=0.0):
+    def __init__(self, rng, world, numba_share=0.0, op_boost=1.0):
         """numba_share: probability that a differential operator is applied with the numba backend
-        (compiled, or - in a NUMBA_DISABLE_JIT=1 interpreter - its Python source) instead of scipy"""
+        (compiled, or - in a NUMBA_DISABLE_JIT=1 interpreter - its Python source) instead of scipy;
+        op_boost: factor on the weight of operator applications"""
         self.rng, self.w = rng, world
         self.uid = 0
         self.numba_share = numba_share
+        self.op_boost = op_boost
 
     def pick(self, pred=lambda i: True, recent=0.5):
         w, rng = self.w, self.rng
@@ -1536,7 +1538,7 @@ class Gen:
             ("ghost", 1.2 if nf else 0), ("component", 2.5 * crowd if nf else 0),
             ("mkColl", 4 * crowd if nf else 0), ("fromData", 0.5 * crowd), ("slice", 1.6 * crowd if ncoll else 0),
             ("append", 1.6 * crowd if ncoll else 0), ("copy", 2.2 * crowd if n else 0), ("deepcopy", 1.3 * crowd if n else 0), ("neg", 1 * crowd if n else 0),
-            ("binop", 4 * crowd if nf else 0), ("inplace", 4.5 if nf else 0), ("operator", 1.3 * crowd if nf else 0),
+            ("binop", 4 * crowd if nf else 0), ("inplace", 4.5 if nf else 0), ("operator", 1.3 * crowd * self.op_boost if nf else 0),
             ("derived", 1.2 * crowd if nf else 0), ("storage", 2.2 * crowd if nf else 0),
             ("malformed", 1.6 if nf else 0),
         ]
@@ -1848,7 +1850,7 @@ class Gen:
         return {"k": "inplace", "a": self.name(a), "bop": rng.choice(["add", "mul", "sub"]), "v": gen_scalar(rng, k + 1)}
 
 
-def gen_history(rng, length, numba_share=0.0, monitors=True):
+def gen_history(rng, length, numba_share=0.0, monitors=True, op_boost=1.0):
     gspecs = [gen_grid(rng)]
     if rng.random() < 0.3:
         # the second grid must be unequal AND incompatible in py-pde's sense (a UnitGrid equals the
@@ -1858,7 +1860,7 @@ def gen_history(rng, length, numba_share=0.0, monitors=True):
         if (a.shape, a.axes_bounds) != (b.shape, b.axes_bounds):
             gspecs.append(g2)
     w = World(gspecs, monitors=monitors)
-    gen = Gen(rng, w, numba_share)
+    gen = Gen(rng, w, numba_share, op_boost)
     tries = 0
     while len(w.script) < length and tries < 6 * length and w.unexpected is None:
         tries += 1
@@ -2163,8 +2165,9 @@ def worker(args):
             # compiled mode: the first `n_numba` histories of the worker use the compiled numba backend
             # for half of their operators (1-7 s of compilation per operator and grid), the others
             # scipy; source mode (NUMBA_DISABLE_JIT=1): the numba backend for most operators
-            share = (0.5 if (done + h) < n_numba else 0.0) if jit else 0.7
-            w = gen_history(rng, rng.randint(5, 40), numba_share=share)
+            compiled = jit and (done + h) < n_numba
+            share = (0.8 if compiled else 0.0) if jit else 0.7
+            w = gen_history(rng, rng.randint(5, 40), numba_share=share, op_boost=6.0 if compiled else 1.0)
             worlds.append(w)
             batch.add("c15.run", w.request())
         answers = batch.run()
@@ -2222,12 +2225,13 @@ def run(ctx):
     n_hist = ctx.budget(1600, 24000)
     per = -(-n_hist // procs)
     # first half of the workers: numba compiles (the mode users run); operators on the scipy backend
-    # except for a few histories per worker that pay for compilation.  Second half: interpreters
+    # except for 12 (thorough: 40) operator-heavy histories per worker that pay for compilation
+    # (0.2-1 s per operator and grid with a fresh cache).  Second half: interpreters
     # started with NUMBA_DISABLE_JIT=1, operators mostly on the numba backend (all grid classes).
     jobs = []
     for k in range(procs):
         jit = k < procs // 2
-        jobs.append((f"C15:{ctx.seed}:{ctx.rng.getrandbits(64)}:{k}", per, ctx.budget(4 if k < 2 else 0, 6) if jit else 0, jit))
+        jobs.append((f"C15:{ctx.seed}:{ctx.rng.getrandbits(64)}:{k}", per, ctx.budget(12, 40) if jit else 0, jit))
     results = run_many("harness.c15", "worker", jobs, procs=procs, workdir=ctx.workdir)
     mfails, dis = [], []
     for r in results:
@@ -2359,7 +2363,7 @@ def replay(ctx, rep):
       failure again on this history (other monitor failures are printed, they are not what was
       recorded);
     * broken-tie file (`broken`: list of cases where model and code differed): False while model and
-      code still differ on one of the recorded histories (or a monitor fails on it);
+      code still differ on one of the recorded histories;
     * a file without an executable history cannot be replayed: says so and returns False."""
     todo = []
     if isinstance(rep.get("case"), dict) and "script" in rep["case"]:
@@ -2394,7 +2398,8 @@ def replay(ctx, rep):
                 again = any(f["what"] == symptom for f in r["mfail"])
                 print(f"recorded symptom {symptom!r}:", "reproduced" if again else "not reproduced")
         else:
-            again = bool(r["mfail"]) or r.get("diff") is not None or "diff_error" in r
+            # (monitor failures on such a history are printed above; they are not what this file records)
+            again = r.get("diff") is not None or "diff_error" in r
             print("recorded symptom (model != code on this history):", "still differs" if again else "agree again")
         ok = ok and not again
     return ok
